@@ -171,6 +171,20 @@ def evaluate(job):
                 elif dl > 0:
                     with open(vf, 'ab') as f:
                         f.write(b'\0' * dl)
+                form = sorted(row.get('forms', ['plain']))[(vi + idx + seed) % len(row.get('forms', ['plain']))]
+                if form == 'dotdot':
+                    # the array under test lives next to the target of a symbolic link; the path given to Darr goes
+                    # through the link and back ('work/lnk/../name'); at the lexically simplified place a valid decoy
+                    name = os.path.basename(t2)
+                    os.makedirs(os.path.join(root, 'elsewhere', 'sub'))
+                    os.makedirs(os.path.join(root, 'work'))
+                    real = os.path.join(root, 'elsewhere', name)
+                    shutil.move(t2, real)
+                    shutil.copytree(top, os.path.join(root, 'work', name))
+                    os.symlink(os.path.join(root, 'elsewhere', 'sub'), os.path.join(root, 'work', 'lnk'))
+                    t2 = os.path.join(root, 'work', 'lnk', '..', name)
+                    s2 = t2 if sub == top else os.path.join(t2, os.path.basename(sub))
+                    vf = os.path.join(s2, 'arrayvalues.bin')
                 ragged = c['kind'].startswith('ragged')
                 exp_array, exp_open = row['array'], (row['array'] if ragged else row['open'])
                 calls = []
@@ -196,7 +210,7 @@ def evaluate(job):
                         got = 'Raises'
                         out['raised'] += 1
                     if exp == 'Raises' and got != 'Raises':
-                        out['bad'].append({'opener': nm, 'expected': exp, 'got': got, 'how': how,
+                        out['bad'].append({'opener': nm, 'expected': exp, 'got': got, 'how': how, 'path_form': form,
                                            'value': repr(val)[:80], 'numtype': nt, 'byteorder': bo,
                                            'descr': {k: d.get(k) for k in ('numtype', 'byteorder', 'shape', 'arrayorder')} if how in ('ok', 'missing', 'set') else None,
                                            'filesize': os.path.getsize(vf)})
